@@ -2,9 +2,9 @@ package main
 
 // lockHeld returns the ghost predicate "the lock at loc is held (for writing, or reading if r) by this goroutine".
 func (fr *Frame) lockHeld(st *State, loc *Loc, r bool) Term {
-	name := "LockW"
+	name := "ghost_LockW"
 	if r {
-		name = "LockR"
+		name = "ghost_LockR"
 	}
 	h := st.Get(name, arraySort(SInt, SBool))
 	return tSelect(h, fr.lockRef(loc))
